@@ -8,6 +8,7 @@ Open Scope string_scope.
 Fixpoint J_val (v : val) : J :=
   match v with
   | VNone => JNone
+  | VNaN _ => JNaN
   | VNum _ t => JZ (t / 2)
   | VBool b => JB b
   | VStr s => JL [JS "s"; JS s]
